@@ -443,8 +443,12 @@ func (e *Exec) execInstr(fr *Frame, b *ssa.BasicBlock, ins ssa.Instruction, st *
 		v := e.val(fr, x.X).(*IfaceV)
 		ok := eq(v.Tag, e.typeID(x.AssertedType))
 		var res SV
-		if _, isIface := x.AssertedType.Underlying().(*types.Interface); isIface {
-			ok = e.fresh("implements", SBool)
+		if it, isIface := x.AssertedType.Underlying().(*types.Interface); isIface {
+			if _, disp := dispatchable(x.AssertedType); disp {
+				ok = e.assertsTo(fr.fn.Prog, v, it)
+			} else {
+				ok = e.fresh("implements", SBool)
+			}
 			res = &IfaceV{Ty: x.AssertedType, Tag: v.Tag, Ref: v.Ref}
 		} else if _, isPtr := x.AssertedType.Underlying().(*types.Pointer); isPtr {
 			res = &PtrV{Ty: x.AssertedType, Addr: v.Ref}
